@@ -140,9 +140,16 @@ fn main() {
     println!("{:?} {}", a.as_slice(), ser(&a));
     let b: Result<GenericArray<&str, U2>, _> = serde_json::from_str(&text);
     println!("{}", b.is_err());
+    // an element type that is Serialize + Deserialize and nothing else (no Default, no Clone, no Copy)
+    #[derive(Debug, PartialEq)] struct Id(core::num::NonZeroU8);
+    impl Serialize for Id { fn serialize<S: serde::Serializer>(&self, s: S) -> Result<S::Ok, S::Error> { s.serialize_u8(self.0.get()) } }
+    impl<'de> Deserialize<'de> for Id { fn deserialize<D: Deserializer<'de>>(d: D) -> Result<Self, D::Error> {
+        let v = u8::deserialize(d)?; core::num::NonZeroU8::new(v).map(Id).ok_or_else(|| serde::de::Error::custom("zero")) } }
+    let ids: GenericArray<Id, U2> = serde_json::from_str("[3,4]").unwrap();
+    println!("{:?} {}", ids.as_slice(), ser(&ids));
 }
 "#,
-                expect: "[\"a\", \"bc\", \"\"] [\"a\",\"bc\",\"\"]\ntrue\n",
+                expect: "[\"a\", \"bc\", \"\"] [\"a\",\"bc\",\"\"]\ntrue\n[Id(3), Id(4)] [3,4]\n",
             },
         ],
         "C08" => vec![
@@ -223,6 +230,24 @@ fn main() {
 }
 "#,
             expect: "[0, 0, 0] [0, 0]\n[0, 0, 0]\n",
+        },
+        Caller {
+            what: "const_default() from a caller generic over T and N that states what the inherent method asks for (T: ConstDefault and GenericArray<T, N>: ConstDefault), at run time and in a const",
+            externs: &["const_default"],
+            src: r#"
+use const_default::ConstDefault;
+fn cd<T, N: ArrayLength>() -> GenericArray<T, N> where T: ConstDefault, GenericArray<T, N>: ConstDefault { GenericArray::<T, N>::const_default() }
+struct Holder<T, N: ArrayLength>(GenericArray<T, N>);
+impl<T: ConstDefault, N: ArrayLength> Holder<T, N> where GenericArray<T, N>: ConstDefault { const INIT: GenericArray<T, N> = GenericArray::<T, N>::const_default(); }
+fn main() {
+    let a: GenericArray<u8, U3> = cd();
+    let b: GenericArray<[u16; 2], U2> = cd();
+    const C: GenericArray<u32, U5> = GenericArray::<u32, U5>::const_default();
+    let d = Holder::<i64, U4>::INIT;
+    println!("{:?} {:?} {:?} {:?}", a.as_slice(), b.as_slice(), C.as_slice(), d.as_slice());
+}
+"#,
+            expect: "[0, 0, 0] [[0, 0], [0, 0]] [0, 0, 0, 0, 0] [0, 0, 0, 0]\n",
         }],
         "C02" => vec![
             Caller {
@@ -249,9 +274,15 @@ fn main() {
     let mut t = arr![String::from("b"), String::from("a")];
     t.reverse(); t.sort(); t.swap(0, 1);
     println!("{:?}", t.as_slice());
+    #[repr(C)] struct Framed { head: u64, empty: GenericArray<u64, U0>, three: GenericArray<u64, U3>, tail: u64 }
+    let mut fr = Framed { head: 1, empty: GenericArray::default(), three: arr![7u64, 8, 9], tail: 2 };
+    let base = &fr as *const Framed as usize;
+    println!("{} {} {} {}", fr.empty.as_ptr() as usize - base, fr.three.as_ptr() as usize - base,
+             fr.empty.as_mut_ptr() as usize - base, fr.three.as_mut_ptr() as usize - base);
+    println!("{} {}", fr.head + fr.tail, fr.three.as_ptr_range().end as usize - base);
 }
 "#,
-                expect: "[4, 2, 1, 3]\n[1, 2, 3, 4]\n[2, 3, 1, 4]\n[7, 7, 7, 7] true Some(7) Some(7)\n[7, 7, 9, 7] Some(2) 4\n3 [3, 4]\n3\n[1, 9] 3\n[\"b\", \"a\"]\n",
+                expect: "[4, 2, 1, 3]\n[1, 2, 3, 4]\n[2, 3, 1, 4]\n[7, 7, 7, 7] true Some(7) Some(7)\n[7, 7, 9, 7] Some(2) 4\n3 [3, 4]\n3\n[1, 9] 3\n[\"b\", \"a\"]\n8 8 8 8\n3 32\n",
             },
         ],
         "C12" => vec![
@@ -280,6 +311,26 @@ fn main() {
 }
 "#,
                 expect: "[1, 2] [3, 4, 5]\n[1, 2, 3, 4] [3, 4]\n[1, 2, 3, 4] [0, 1, 2, 3] [1] 2 1 [2] [1, 2, 3] 1 [2, 3]\n6\n",
+            },
+            Caller {
+                what: "Clone / Copy / Send / Sync of arrays whose elements BORROW from locals (no 'static bound), as for native arrays",
+                externs: &[],
+                src: r#"
+#[derive(Clone, Copy, Debug)] struct View<'a> { s: &'a str, n: &'a u32 }
+fn dup<'a>(a: GenericArray<&'a u32, U3>) -> (GenericArray<&'a u32, U3>, GenericArray<&'a u32, U3>) { (a, a.clone()) }
+fn need_send_sync<X: Send + Sync + Copy>(x: X) -> X { x }
+fn main() {
+    let (p, q, r) = (1u32, 2u32, 3u32);
+    let text = String::from("hello");
+    let a: GenericArray<&u32, U3> = arr![&p, &q, &r];
+    let (b, c) = dup(a);
+    let v = arr![View { s: &text[..2], n: &p }, View { s: &text[2..], n: &q }];
+    let w = need_send_sync(v);
+    let it = a.into_iter().clone();
+    println!("{:?} {:?} {:?} {:?} {:?}", a.as_slice(), b.as_slice(), c.as_slice(), w[1], it.as_slice());
+}
+"#,
+                expect: "[1, 2, 3] [1, 2, 3] [1, 2, 3] View { s: \"llo\", n: 2 } [1, 2, 3]\n",
             },
         ],
         "C13" => vec![
